@@ -26,6 +26,8 @@ func verifDocSchema(part int) *schema.Schema {
 	t1.AddColumns(t1id).SetPrimaryKey(schema.NewPrimaryKey(t1id))
 	t0 := schema.NewTable("t0").SetSchema(s)
 	id := schema.NewIntColumn("id", "integer")
+	// SQLite reports a primary-key column as nullable unless it is declared NOT NULL
+	id.Type.Null = verifBool("pknull")
 	pk := schema.NewPrimaryKey(id)
 	t0.AddColumns(id).SetPrimaryKey(pk)
 	d := schema.NewStringColumn("d", "text")
